@@ -350,25 +350,44 @@ func (c *c05state) notePath(si int, acct, branch, index uint32) {
 // unlockContext qualifies an unlock failure with the history shape that
 // matters for triage (no data, only shape).
 func (c *c05state) unlockContext() string {
-	for _, sc := range c.r.m.Scopes {
-		for _, a := range sc.Accts {
-			if a.Watch {
-				return ":imported-xpub-account-present"
-			}
-		}
-	}
+	// (used to qualify unlock failures while imported accounts broke Unlock;
+	// that defect is repaired, one signature per failure class is enough)
 	return ""
 }
 
 // afterChpass: the new passphrase works and the old one fails, immediately.
-func (c *c05state) afterChpass(private bool) {
+//
+// check selects how much is verified right away: 0 everything (this forces a
+// lock cycle when the manager was unlocked), 1 only what can be verified
+// without leaving the state the change produced (so that the following
+// operations of the plan run in exactly that state), 2 nothing.
+func (c *c05state) afterChpass(private bool, check int64) {
 	r := c.r
+	if check == 2 {
+		return
+	}
 	if !private {
 		c.pubPassNow()
 		return
 	}
 	was := r.locked
 	old := r.m.OldPriv[len(r.m.OldPriv)-1]
+	if !was {
+		// (a) the new passphrase on the still unlocked manager (Unlock's
+		// already-unlocked path compares a salted hash kept in memory): it
+		// must be accepted and the manager must stay unlocked.
+		err, _ := r.unlockWith(append([]byte(nil), r.m.Priv...))
+		r.env.Count("probe.unlock-new-passphrase-while-still-unlocked")
+		if err != nil || r.mgr.IsLocked() {
+			r.locked = r.mgr.IsLocked()
+			r.fail("unlock-failed:new-passphrase:"+errName(err)+":was=unlocked"+c.unlockContext(),
+				"Unlock with the new private passphrase on the still unlocked manager right after ChangePassphrase returned %v (IsLocked=%v)", err, r.mgr.IsLocked())
+			return
+		}
+	}
+	if check == 1 {
+		return
+	}
 	if !was {
 		c.beforeLock()
 	}
